@@ -62,6 +62,8 @@ impl Event {
     /// when `poll` got a Normal event, should always call it first
     fn continue_bottom(&mut self) {
         if let Some(co) = self.co.take() {
+            #[cfg(may_verif)]
+            crate::verif::pt("cq.bottom", 0, crate::verif::co_vid(&co), 0);
             run_coroutine(co);
         }
     }
@@ -105,14 +107,22 @@ impl EventSender<'_> {
     /// send out the event
     pub fn send(&self, extra: usize) {
         let cancel = current_cancel_data();
+        #[cfg(may_verif)]
+        crate::verif::pt("cq.send.check", crate::verif::addr(self.cqueue), 0, 0);
         cancel.check_cancel();
         self.extra.store(extra, Ordering::Relaxed);
+        #[cfg(may_verif)]
+        crate::verif::pt("cq.send.yield", crate::verif::addr(self.cqueue), 0, 0);
         yield_with(self);
     }
 }
 
 impl EventSource for EventSender<'_> {
     fn subscribe(&mut self, co: CoroutineImpl) {
+        #[cfg(may_verif)]
+        let vid = crate::verif::co_vid(&co);
+        #[cfg(may_verif)]
+        crate::verif::pt("cqsub.push", crate::verif::addr(self.cqueue), vid, 0);
         self.cqueue.ev_queue.push(Event {
             id: self.id,
             token: self.token,
@@ -120,6 +130,8 @@ impl EventSource for EventSender<'_> {
             kind: EventKind::Normal,
             co: Some(co),
         });
+        #[cfg(may_verif)]
+        crate::verif::pt("cqsub.take", crate::verif::addr(self.cqueue), vid, 0);
         if let Some(w) = self.cqueue.to_wake.take() {
             w.unpark();
         }
@@ -133,6 +145,8 @@ impl EventSource for EventSender<'_> {
 impl Drop for EventSender<'_> {
     // when the select coroutine finished will trigger this drop
     fn drop(&mut self) {
+        #[cfg(may_verif)]
+        crate::verif::pt("cq.done.push", crate::verif::addr(self.cqueue), 0, 0);
         self.cqueue.ev_queue.push(Event {
             id: self.id,
             token: self.token,
@@ -140,7 +154,11 @@ impl Drop for EventSender<'_> {
             kind: EventKind::Done,
             co: None,
         });
+        #[cfg(may_verif)]
+        crate::verif::pt("cq.done.dec", crate::verif::addr(self.cqueue), 0, 0);
         self.cqueue.cnt.fetch_sub(1, Ordering::Relaxed);
+        #[cfg(may_verif)]
+        crate::verif::pt("cq.done.take", crate::verif::addr(self.cqueue), 0, 0);
         if let Some(w) = self.cqueue.to_wake.take() {
             w.unpark();
         }
@@ -204,6 +222,8 @@ impl Cqueue {
         }
 
         use generator::Error;
+        #[cfg(may_verif)]
+        crate::verif::pt("cq.check_panic", crate::verif::addr(self), id, 0);
         match self.selectors.lock().unwrap()[id]
             .take()
             .expect("join handler not set")
@@ -242,9 +262,13 @@ impl Cqueue {
 
         let deadline = timeout.map(|dur| Instant::now() + dur);
         loop {
+            #[cfg(may_verif)]
+            crate::verif::pt("cq.poll.pop", crate::verif::addr(self), 0, 0);
             match self.ev_queue.pop() {
                 Some(mut ev) => run_ev!(ev),
                 None => {
+                    #[cfg(may_verif)]
+                    crate::verif::pt("cq.poll.load_cnt", crate::verif::addr(self), 0, 0);
                     if self.cnt.load(Ordering::Relaxed) == 0 {
                         return Err(PollError::Finished);
                     }
@@ -253,13 +277,19 @@ impl Cqueue {
 
             let cur = Blocker::current();
             // register the waiter
+            #[cfg(may_verif)]
+            crate::verif::pt("cq.poll.reg", crate::verif::addr(self), crate::verif::addr(&*cur), 0);
             self.to_wake.store(cur.clone());
             // re-check the queue
+            #[cfg(may_verif)]
+            crate::verif::pt("cq.poll.repop", crate::verif::addr(self), 0, 0);
             match self.ev_queue.pop() {
                 None => {
                     cur.park(timeout).ok();
                 }
                 Some(mut ev) => {
+                    #[cfg(may_verif)]
+                    crate::verif::pt("cq.poll.unreg", crate::verif::addr(self), 0, 0);
                     self.to_wake.take();
                     run_ev!(ev);
                 }
@@ -278,6 +308,8 @@ impl Drop for Cqueue {
     // this would cancel all unfinished select coroutines
     // and wait until all of them return back
     fn drop(&mut self) {
+        #[cfg(may_verif)]
+        crate::verif::pt("cq.drop.cancel", crate::verif::addr(self), 0, 0);
         // first cancel all the select coroutines if they are running
         self.selectors
             .lock()
